@@ -87,6 +87,16 @@ CHECKS["C11"] = dict(
    note=TB + "SADUMP disk sets are not covered (no writer); allocation failure and I/O errors of the packaging layer are not exercised; the library is built "
         "without UBSan's alignment check for this property (header structs are read at arbitrary alignment inside flattened files).",
    technique="Lean 4 proof (flattened read = rearranged file; split order irrelevance) + differential correspondence", design="§6 C11")
+CHECKS["C14"] = dict(
+   text="Lean proofs over four small models on the set_attr hook protocol: page size/page shift coherence after every history of sets (undefined shifts "
+        "explicit); CPU registers as views of the PRSTATUS blob in the dump's byte order (a read equals the blob bytes, a write patches exactly its own "
+        "bytes, read after write, stable under all histories); release string -> version code (incl. a model of strtoul), unreadable after the release is "
+        "cleared; VMCOREINFO: the line splitter is lossless, parsed lines and kdump_vmcoreinfo_line equal the last row per key, the raw text is preserved. "
+        "Tie: the public API on fresh contexts and on generated ELF dumps for eight architecture/byte-order pairs; the implemented register layout is "
+        "discovered on every run and compared with an ELF core ABI table (264 register attributes); independent Python oracles.",
+   note=TB + "Typed-value completeness and the page-size/shift statement including clears are false for the code (witness examples in C14.lean) and are "
+        "recorded as KNOWN_FINDINGS (clear-page-size-shift, vmci-dotted-prefix, vmci-stale-typed, vmci-leading-dot); ten other defects were repaired.",
+   technique="Lean 4 proof (coherence invariants over all histories) + differential correspondence", design="§6 C14")
 NOT_YET = {}
 
 def main():
